@@ -31,6 +31,12 @@ func checkC10(c *Ctx) {
 	// the fourth way to obtain a PublicKey: the SubjectPublicKeyInfo parser must hold exactly what NewPublicKey accepts
 	// (rule C12-5; a parser that builds the key object itself would bypass the identity / validity tests of the constructor)
 	c12ASN1PublicKey(c, prog)
+	// ... and the fifth: NewPublicKeyFromPoint takes any Point the API can produce; the raw-coordinate constructor is the one
+	// Point constructor that no routine of this property calls, so its accept set (canonical x, y on the curve - rule C06-1)
+	// is evaluated here as well ("a public key can only be obtained from ... a valid, canonical ... point")
+	if pl := pointFields(prog); pl.x >= 0 && pl.y >= 0 && pl.z >= 0 && pl.valid >= 0 {
+		c06Coords(c, prog, pl)
+	}
 	c.R.Explanation = "ECDH, the key constructors and the key accessors are abstractly interpreted against the scalar-ring / point-module specifications: ECDH(k, B) = Bytes(x(k.scalar * B.point)) and the identity is the only error; NewPrivateKey accepts exactly 32-byte strings below n that are non-zero, NewPrivateKeyFromScalar exactly non-zero scalars, NewPublicKey exactly valid SEC 1 encodings (C06) of non-identity points, NewPublicKeyFromPoint exactly non-identity points; an accepted key stores a fresh copy of the scalar / point, the public point d*G and the uncompressed encoding of the stored point; objects of the key types are created and written only inside the two unexported constructors (who-writes over every package); accessors return fresh copies and CompressedBytes / Bytes are functions of the cached encoding (prefix 2 + parity of the last byte)."
 	c.R.Assumptions = []string{"C04 (ScalarMult exact) - symmetry ECDH(a,B) = ECDH(b,A) = x(ab*G) is its consequence and is recorded as derived", "C05 (ScalarBaseMult)", "C06 (strict SEC 1 decoding, encoders)", "C02"}
 }
